@@ -73,6 +73,10 @@ pub enum CrashPoint {
     /// Power loss: every namespace operation of the first k is durable, but of the data written
     /// to `ino` since its last fsync only `keep` bytes reached the disk.
     PowerLoss { k: usize, ino: u64, keep: usize },
+    /// Not a kill: the disk fills up (ENOSPC; a file-size limit or quota behaves alike) after the
+    /// run has written `after` bytes; the run goes on, handles the error and exits normally.
+    /// The state is whatever that run leaves behind (re-executed live, not materialised).
+    WriteError { after: u64 },
 }
 
 impl CrashPoint {
@@ -80,6 +84,7 @@ impl CrashPoint {
         match self {
             CrashPoint::Prefix { k, cut } => Disk::crash_state(d0, journal, *k, *cut),
             CrashPoint::PowerLoss { k, ino, keep } => Disk::power_loss_state(d0, journal, *k, *ino, *keep),
+            CrashPoint::WriteError { .. } => unreachable!("write-error states are produced by re-executing the run"),
         }
     }
 }
@@ -173,6 +178,10 @@ fn run_step(boc: &Arc<BocData>, st: &Step, max_write: usize, hash_seed: u64) -> 
 }
 
 fn run_step_clock_ahead(boc: &Arc<BocData>, st: &Step, max_write: usize, hash_seed: u64, ahead: i64) -> FxObs {
+    run_step_with(boc, st, max_write, hash_seed, ahead, FsFaultSpec::default())
+}
+
+fn run_step_with(boc: &Arc<BocData>, st: &Step, max_write: usize, hash_seed: u64, ahead: i64, fs_faults: FsFaultSpec) -> FxObs {
     run_fx_process(FxPlan {
         data: boc.clone(),
         today: pd(&st.today) + Duration::days(ahead),
@@ -187,7 +196,7 @@ fn run_step_clock_ahead(boc: &Arc<BocData>, st: &Step, max_write: usize, hash_se
         app_legacy_date: false,
         net_faults: vec![],
         server_today: if ahead != 0 { Some(pd(&st.today)) } else { None },
-        fs_faults: FsFaultSpec::default(),
+        fs_faults,
         knobs: Knobs { max_write, max_read: usize::MAX, eintr_every: 0 },
         hash_seed,
     })
@@ -285,6 +294,30 @@ fn describe_cut(d0: &Disk, journal: &[Op], cp: &CrashPoint) -> (String, String) 
             };
             (format!("crash at a step boundary: after {}{}", kind, target), format!("{} {}", head, after_what))
         }
+        CrashPoint::WriteError { after } => {
+            // which write, and where inside the row, does byte `after` fall?
+            let mut seen = 0u64;
+            let mut pos = "at the very end".to_string();
+            let mut target = "the cache directory".to_string();
+            for (k, op) in journal.iter().enumerate() {
+                if let Op::Write { ino, off, data } = op {
+                    if seen + data.len() as u64 > *after {
+                        let cut = (*after - seen) as usize;
+                        let before = Disk::crash_state(d0, journal, k, 0);
+                        let p = name_of(&before, *ino);
+                        let after_d = Disk::crash_state(d0, journal, k, cut);
+                        let content = after_d.inodes.get(ino).map(|i| i.data.clone()).unwrap_or_default();
+                        let upto = (*off as usize + cut).min(content.len());
+                        let text = String::from_utf8_lossy(&content[..upto]).to_string();
+                        pos = format!("cut {}", cut_position(&text));
+                        target = file_class(&p).to_string();
+                        break;
+                    }
+                    seen += data.len() as u64;
+                }
+            }
+            (format!("write error (disk full) while writing {}, {}", target, pos), format!("{} the disk is full after {} bytes written by the run (ENOSPC: a short write, then errors); the run handles the error and exits", head, after))
+        }
         CrashPoint::PowerLoss { k, ino, keep } => {
             let disk = Disk::power_loss_state(d0, journal, *k, *ino, *keep);
             let p = name_of(&disk, *ino);
@@ -343,6 +376,7 @@ impl C14 {
             // A shrink candidate may have changed the journal: a crash point outside it explores nothing.
             let k = match p {
                 CrashPoint::Prefix { k, .. } | CrashPoint::PowerLoss { k, .. } => *k,
+                CrashPoint::WriteError { .. } => 0,
             };
             return if k <= journal.len() { vec![p.clone()] } else { vec![] };
         }
@@ -408,6 +442,33 @@ impl C14 {
                         }
                     }
                 }
+            }
+        }
+        // Write errors: the disk fills up after N bytes (thorough: 96 offsets, quick: 14), biased to
+        // the last rows, to just past every 8 KiB buffer boundary (the error then hits the final
+        // flush of a buffered writer) and to the first row.
+        let total: u64 = journal.iter().map(|o| if let Op::Write { data, .. } = o { data.len() as u64 } else { 0 }).sum();
+        if total > 1 {
+            let n = if sc.sample_cuts.is_some() { 14 } else { 96 };
+            let mut offs: BTreeSet<u64> = BTreeSet::new();
+            let mut guard = 0;
+            while offs.len() < n && guard < n * 20 {
+                guard += 1;
+                let o = match r.weighted(&[4, 4, 1, 3]) {
+                    0 => total.saturating_sub(r.range(1, 70) as u64),
+                    1 => {
+                        let m = (total / 8192).max(1);
+                        8192 * r.range(1, m as i64) as u64 + r.range(0, 80) as u64
+                    }
+                    2 => r.range(0, 30) as u64,
+                    _ => r.range(0, total as i64 - 1) as u64,
+                };
+                if o < total {
+                    offs.insert(o);
+                }
+            }
+            for o in offs {
+                pts.push(CrashPoint::WriteError { after: o });
             }
         }
         pts
@@ -530,10 +591,44 @@ impl Engine for C14 {
         let mut seen_disks: BTreeSet<u64> = BTreeSet::new();
         let mut distinct_states = 0usize;
         for cp in points {
-            let disk = cp.materialise(&d0, &journal);
+            let disk = match &cp {
+                CrashPoint::WriteError { after } => {
+                    // live re-execution of the victim over the same starting disk, with the disk filling up
+                    with_world(|w| w.fs.disk = d0.clone());
+                    let o = run_step_with(&boc, &sc.victim, sc.max_write, sc.hash_seed, 0, FsFaultSpec { enospc_after_bytes: Some(*after), ..FsFaultSpec::default() });
+                    st.bump("sim.processes");
+                    if let Some(p) = &o.panic {
+                        let (sig, desc) = describe_cut(&d0, &journal, &cp);
+                        let v = Violation { kind: "panic_on_write_error".into(), signature: sig, detail: format!("{}\nthe run panicked: {}", desc, p) };
+                        if !violations.iter().any(|x| x.kind == v.kind && x.signature == v.signature) {
+                            violations.push(v);
+                        }
+                    }
+                    // its own answers: a failed cache write is not fatal, whatever it answers must be right
+                    let vt = pd(&sc.victim.today);
+                    for lo in &o.lookups {
+                        if lo.result.is_ok() {
+                            let expect = reference.lookup(vt, sc.victim.published_today, lo.date);
+                            if !same_answer(&lo.result, &expect) {
+                                let (sig, desc) = describe_cut(&d0, &journal, &cp);
+                                let v = Violation { kind: "answer_differs_during_write_error".into(), signature: sig, detail: format!("{}\nthat run's own look-up of {}: {} — without cache {}", desc, lo.date, show_answer(&lo.result), show_answer(&expect)) };
+                                if !violations.iter().any(|x| x.kind == v.kind && x.signature == v.signature) {
+                                    violations.push(v);
+                                }
+                            }
+                        }
+                    }
+                    if o.proc.fs_faults_fired.is_empty() {
+                        st.bump("probe.write_error_offset_not_reached");
+                    }
+                    with_world(|w| w.fs.disk.clone())
+                }
+                _ => cp.materialise(&d0, &journal),
+            };
             let dg = disk.digest();
             st.bump("probe.crash_states");
             match &cp {
+                CrashPoint::WriteError { .. } => st.bump("fault.write_error_disk_full"),
                 CrashPoint::Prefix { cut, .. } if *cut > 0 => st.bump("fault.crash_inside_write"),
                 CrashPoint::Prefix { k, .. } => st.bump(&format!("fault.crash_after_{}", if *k == 0 { "nothing" } else { journal[*k - 1].kind() })),
                 CrashPoint::PowerLoss { keep, .. } => st.bump(if *keep == 0 { "fault.power_loss_unsynced_data_lost" } else { "fault.power_loss_unsynced_data_cut" }),
@@ -750,7 +845,7 @@ impl Engine for C14 {
         "fault_enumeration"
     }
     fn rule(&self) -> String {
-        "Per seeded scenario (calendar, victim day in early January / December / mid-year so the year file is ~100 B, ~6 KiB or >8 KiB = two write calls, optional earlier complete run leaving an older file, legal short writes, a look-up that makes the process download - Jan 1-7 look-backs write two year files) the real download+cache-write path runs once, fault-free, while SimFs journals every operation. Fault space: every prefix of that journal = a crash after each operation (mkdir, chmod, create, truncate, each write, fsync, rename, close) and inside every write at byte offsets (thorough: all of them; quick: all operation boundaries + ~192 offsets biased to the last three rows and the first row). Power loss adds, after every rename/link and at the end, states in which un-synced data of a file is lost entirely or cut (thorough: every offset; quick: 48 biased offsets). A third of the scenarios start from the debris of an even earlier killed run (e.g. a stale temporary file); in half of those that run's clock was 3-60 days ahead (a clock jump corrected afterwards), so its year content is longer than anything a correct run writes, and it died before its first rename. A third of the victims look further dates up in other years and write up to four year files. For each distinct surviving disk, two fresh simulated processes (same day; a later day) look up every date in the last three and the first surviving rows, the day after, today, the victim's date and two seeded dates. For every n-th distinct state (quick 24th, thorough 6th) the same-day recovery run, which usually downloads again, is itself killed at sampled points of its own journalled write, and the later-day run recovers from that. Oracle: each recovery look-up equals the look-up by the real code with no cache. evaluations = crash states explored; distinct_nontrivial = distinct surviving disks (digest of names + contents).".to_string()
+        "Per seeded scenario (calendar, victim day in early January / December / mid-year so the year file is ~100 B, ~6 KiB or >8 KiB = two write calls, optional earlier complete run leaving an older file, legal short writes, a look-up that makes the process download - Jan 1-7 look-backs write two year files) the real download+cache-write path runs once, fault-free, while SimFs journals every operation. Fault space: every prefix of that journal = a crash after each operation (mkdir, chmod, create, truncate, each write, fsync, rename, close) and inside every write at byte offsets (thorough: all of them; quick: all operation boundaries + ~192 offsets biased to the last three rows and the first row). Power loss adds, after every rename/link and at the end, states in which un-synced data of a file is lost entirely or cut (thorough: every offset; quick: 48 biased offsets). Write errors add states produced by re-executing the run live with the disk filling up after N bytes (ENOSPC: short write, then errors; quick 14, thorough 96 offsets biased to the last rows, to just past every 8 KiB buffer boundary and to the first row): the run handles the error and exits, its own answers must be right, and the recovery history runs over what it left. A third of the scenarios start from the debris of an even earlier killed run (e.g. a stale temporary file); in half of those that run's clock was 3-60 days ahead (a clock jump corrected afterwards), so its year content is longer than anything a correct run writes, and it died before its first rename. A third of the victims look further dates up in other years and write up to four year files. For each distinct surviving disk, two fresh simulated processes (same day; a later day) look up every date in the last three and the first surviving rows, the day after, today, the victim's date and two seeded dates. For every n-th distinct state (quick 24th, thorough 6th) the same-day recovery run, which usually downloads again, is itself killed at sampled points of its own journalled write, and the later-day run recovers from that. Oracle: each recovery look-up equals the look-up by the real code with no cache. evaluations = crash states explored; distinct_nontrivial = distinct surviving disks (digest of names + contents).".to_string()
     }
     fn state_measure(&self) -> String {
         "distinct (crash position class: step boundary kind + target, or write target + cut position within the row; older file present) pairs".to_string()
@@ -760,6 +855,7 @@ impl Engine for C14 {
             "kill model: the surviving disk is the result of a prefix of the process's file-system operations in program order, the last write possibly cut at any byte (the quantifier of C14)".to_string(),
             "power-loss model ('or the machine loses power'): after a rename/link or at the end of the procedure every name change is durable while, of the data written to a file since its last fsync, only a prefix (possibly nothing) reached the disk; data covered by an fsync is never lost; other reorderings (e.g. a lost rename) only yield states the kill model already contains".to_string(),
             "clock jump: an earlier killed run may have had its clock set ahead (its server snapshot is the real day's); it is always killed before its first name change, so only a temporary file ever holds what the wrong clock produced; if the write procedure has no name change nothing of that run is kept".to_string(),
+            "write-error model: an interrupted write also means a write that fails (disk full, quota, file-size limit): ENOSPC after N bytes written by the run, a short write first; the run is not killed".to_string(),
             "recovery runs see a healthy server whose snapshot contains every rate published before their today".to_string(),
             "the no-cache reference is the real code itself".to_string(),
         ]
@@ -785,6 +881,8 @@ impl Engine for C14 {
             "probe.recovery_downloaded_again",
             "probe.earlier_run_was_killed_too",
             "fault.second_crash_during_recovery_write",
+            "fault.write_error_disk_full",
+            "fault.clock_set_ahead_in_an_earlier_killed_run",
         ];
         if tier == Tier::Thorough {
             v.push("probe.file_written_in_several_write_calls");
